@@ -284,7 +284,11 @@ impl SubqueryExecutor {
         // Run the async code reusing the existing runtime when possible
         let batches = run_subquery_blocking(physical)?;
 
-        if batches.is_empty() || batches[0].num_rows() == 0 {
+        // The result may arrive in several batches (and some of them may be empty):
+        // count the rows of all of them, not only of the first.
+        let total_rows: usize = batches.iter().map(|b| b.num_rows()).sum();
+
+        if total_rows == 0 {
             let result = ScalarValue::Null;
             self.inner
                 .cache
@@ -293,14 +297,18 @@ impl SubqueryExecutor {
             return Ok(result);
         }
 
-        let batch = &batches[0];
-        if batch.num_rows() != 1 {
+        if total_rows != 1 {
             return Err(QueryError::Execution(format!(
                 "Scalar subquery returned {} rows, expected 1",
-                batch.num_rows()
+                total_rows
             )));
         }
 
+        // exactly one row: it sits in the only non-empty batch
+        let batch = batches
+            .iter()
+            .find(|b| b.num_rows() > 0)
+            .expect("one row in total");
         let column = batch.column(0);
         let scalar = array_ref_to_scalar(column, 0)?;
 
